@@ -53,7 +53,7 @@ type nodeDump struct {
 	Units     string      `json:"units,omitempty"`
 	Key       string      `json:"key,omitempty"`
 	Desc      string      `json:"desc,omitempty"`
-	List      string      `json:"list,omitempty"` // min:max:orderedby
+	List      string      `json:"list,omitempty"` // min:max:orderedby:orderedbyuser
 	Type      *typeDump   `json:"type,omitempty"`
 	NS        string      `json:"ns"`
 	InstMod   string      `json:"instmod"`
@@ -245,7 +245,7 @@ func (w *walker) dump(e *yang.Entry, key string, parent *yang.Entry, path string
 		if e.ListAttr.OrderedBy != nil {
 			ob = e.ListAttr.OrderedBy.Name
 		}
-		d.List = fmt.Sprintf("%d:%d:%s", e.ListAttr.MinElements, e.ListAttr.MaxElements, ob)
+		d.List = fmt.Sprintf("%d:%d:%s:%v", e.ListAttr.MinElements, e.ListAttr.MaxElements, ob, e.ListAttr.OrderedByUser)
 	}
 	d.Type = dumpType(e.Type, 0)
 	if ns := e.Namespace(); ns != nil {
